@@ -11,7 +11,7 @@ use_formula_memo()
 MODES = ["auto", "relative", "absolute"]
 PLACES = ["definer itself", "cells of definer", "descendant space", "cells in descendant", "outside space", "cells outside"]
 NAMES = [("A", "AB"), ("AB", "A"), ("A", "B")]
-FOLLOW = ["none", "remove and re-add base", "re-assign reference", "write and read"]
+FOLLOW = ["none", "remove and re-add base", "re-assign reference", "write and read", "re-assign to an object outside"]
 
 
 def _get(root, path):
@@ -26,14 +26,17 @@ def _build(dn, on, depth, tag):
     with notrace():
         m = new_model(tag)
         parent = m if depth == 1 else m.new_space("T")
+        # depth 3: definer T.<dn>, deriver at model level with the SAME name; depth 4: deriver T2.T.<dn> (its path ends like the definer's whole path)
         D = parent.new_space(dn, formula="lambda n: None")
         D.new_cells("df", formula="lambda: 1")
         DC = D.new_space("DC")
         DC.new_cells("dcf", formula="lambda: 2")
         O = m.new_space(on)
         O.new_cells("of", formula="lambda: 3")
-        subparent = m if depth == 1 else m.new_space("T2")
-        S = subparent.new_space("Sub", bases=D)
+        subparent = m if depth in (1, 3) else m.new_space("T2")
+        if depth == 4:
+            subparent = subparent.new_space("T")
+        S = subparent.new_space("Sub" if depth <= 2 else dn, bases=D)
         S.formula = "lambda n: None"         # parameters are not inherited
         return m, D, O, S
 
@@ -100,7 +103,7 @@ def _observe(m, D, O, S, place, mode, what):
 
 @harness
 def rebind(mode: int, place: int, nm: int, depth: int, follow: int) -> bool:
-    mode, place, nm, depth, follow = pick(mode, 0, 2), pick(place, 0, 5), pick(nm, 0, 2), pick(depth, 1, 2), pick(follow, 0, 3)
+    mode, place, nm, depth, follow = pick(mode, 0, 2), pick(place, 0, 5), pick(nm, 0, 2), pick(depth, 1, 4), pick(follow, 0, 4)
     dn, on = NAMES[nm]
     mode = MODES[mode]
     label("mode=%s target=%s names=(%s,%s) depth=%d" % (mode, PLACES[place], dn, on, depth))
@@ -133,6 +136,14 @@ def rebind(mode: int, place: int, nm: int, depth: int, follow: int) -> bool:
         place2 = (place + 1) % 4
         D.set_ref("r", _target(D, O, place2), mode)
         return _observe(m, D, O, S, place2, mode, "after re-assignment")
+    if follow == 4:
+        place2 = 4 + place % 2
+        c = call(D.set_ref, "r", _target(D, O, place2), mode)
+        if mode == "relative" and c[0] == "err":       # refused (or accepted and then it must stay absolute, as at creation)
+            return _observe(m, D, O, S, place, mode, "after the refused re-assignment")
+        if not check(c[0] == "ok", "re-assignment raised", lambda: c):
+            return False
+        return _observe(m, D, O, S, place2, mode, "after re-assignment to an outside object")
     if follow == 3:
         with notrace():
             d = _os.path.join(_os.environ.get("VERIF_SCRATCH", "/tmp"), "c10_%d" % _os.getpid())
@@ -143,7 +154,7 @@ def rebind(mode: int, place: int, nm: int, depth: int, follow: int) -> bool:
             _sh.rmtree(d, ignore_errors=True)
             par = m2 if depth == 1 else m2.T
             D2, O2 = getattr(par, dn), getattr(m2, on)
-            S2 = (m2 if depth == 1 else m2.T2).Sub
+            S2 = {1: lambda: m2.Sub, 2: lambda: m2.T2.Sub, 3: lambda: getattr(m2, dn), 4: lambda: getattr(m2.T2.T, dn)}[depth]()
         return _observe(m2, D2, O2, S2, place, mode, "after write/read")
     return True
 
@@ -257,13 +268,59 @@ def definer_change(m1: int, m2: int, tgt: int, how: int) -> bool:
     return True
 
 
+@harness
+def override_target(mode: int, depth: int, what: int) -> bool:
+    """Base.r -> Base.foo (mode).  Sub(Base) overrides foo and later deletes the override (the derived foo is a NEW object):
+    Sub.r, the formulas reading it, GSub(Sub).r and Sub's ItemSpaces must denote the current Sub.foo (or stay absolute)."""
+    mode, depth, what = pick(mode, 0, 2), pick(depth, 1, 2), pick(what, 0, 1)
+    label("mode=%s chain depth=%d %s" % (MODES[mode], depth, ("override then delete the override", "override only")[what]))
+    with notrace():
+        m = new_model("OT")
+        Base = m.new_space("Base")
+        Base.new_cells("foo", formula="lambda: 1")
+        Base.new_cells("use_r", formula="lambda: r() + 100")
+        Sub = m.new_space("Sub", bases=Base, formula="lambda n: None")
+        GSub = m.new_space("GSub", bases=Sub) if depth == 2 else None
+    c = call(Base.set_ref, "r", Base.foo, MODES[mode])
+    if not check(c[0] == "ok", "reference creation raised", lambda: c):
+        return False
+    c = call(setattr, Sub.foo, "formula", "lambda: 2")
+    if not check(c[0] == "ok", "override raised", lambda: c):
+        return False
+    expect_val = 2
+    if what == 0:
+        c = call(delattr, Sub, "foo")
+        if not check(c[0] == "ok", "deleting the override raised", lambda: c):
+            return False
+        expect_val = 1
+    for sp in [Sub] + ([GSub] if GSub is not None else []):
+        rr = call(lambda: sp.r)
+        if not check(rr[0] == "ok", "derived reference readable", lambda: rr):
+            return False
+        exp = Base.foo if MODES[mode] == "absolute" else sp.foo
+        with notrace():
+            ok = rr[1] is exp
+            detail = (repr(rr[1]), exp.fullname)
+        if not check(ok, "%s.r denotes the current %s" % (sp.name, "Base.foo" if MODES[mode] == "absolute" else sp.name + ".foo"), lambda: detail):
+            return False
+        v = call(sp.use_r)
+        want = (1 if MODES[mode] == "absolute" else expect_val) + 100
+        if not check(v[0] == "ok" and v[1] == want, "formula reading the reference evaluates through the right cells", lambda: (v, want)):
+            return False
+    it = call(lambda: Sub[1].r)
+    with notrace():
+        okit = it[0] == "ok" and (it[1] is Base.foo if MODES[mode] == "absolute" else it[1] is Sub[1].foo)
+    return check(okit, "ItemSpace of the sub space binds the reference to its own cells", lambda: it)
+
+
 QUERIES = [
-    Query("rebind", rebind, pre=["0 <= mode < 3", "0 <= place < 6", "0 <= nm < 3", "1 <= depth <= 2", "0 <= follow < 4"],
-          partitions=lambda tier, seed: ([dict(mode=mo, nm=n, follow=[0, 2]) for mo in range(3) for n in range(3)] + [dict(mode=mo, nm=2, follow=3, depth=1) for mo in range(3)])
-          if tier == "quick" else [dict(mode=mo, nm=n, follow=f) for mo in range(3) for n in range(3) for f in range(4)],
+    Query("rebind", rebind, pre=["0 <= mode < 3", "0 <= place < 6", "0 <= nm < 3", "1 <= depth <= 4", "0 <= follow < 5"],
+          partitions=lambda tier, seed: ([dict(mode=mo, nm=n, follow=[0, 2], depth=[1, 2]) for mo in range(3) for n in range(3)] + [dict(mode=mo, nm=2, follow=3, depth=1) for mo in range(3)] +
+                                         [dict(mode=mo, nm=2, follow=4, depth=[1, 2]) for mo in range(3)] + [dict(mode=mo, nm=[0, 2], follow=0, depth=[3, 4]) for mo in range(3)])
+          if tier == "quick" else [dict(mode=mo, nm=n, follow=f) for mo in range(3) for n in range(3) for f in range(5)],
           natives=[dict(mode=mo, place=p, nm=n, depth=d, follow=f) for (mo, p, n, d, f) in
-                   ((0, 0, 2, 1, 0), (0, 1, 0, 1, 1), (0, 5, 0, 1, 0), (0, 4, 1, 2, 2), (1, 1, 2, 2, 3), (1, 4, 2, 1, 0), (2, 0, 0, 1, 1), (2, 3, 1, 2, 3), (0, 3, 2, 1, 3), (0, 2, 0, 2, 0), (1, 3, 1, 1, 2))],
-          bounds=lambda tier: {"modes": MODES, "placements": PLACES, "names": NAMES, "definer_depth": [1, 2], "derivers": ["static sub space", "ItemSpace of definer", "ItemSpace of the sub space"],
+                   ((0, 0, 2, 1, 0), (0, 1, 0, 1, 1), (0, 5, 0, 1, 0), (0, 4, 1, 2, 2), (1, 1, 2, 2, 3), (1, 4, 2, 1, 0), (2, 0, 0, 1, 1), (2, 3, 1, 2, 3), (0, 3, 2, 1, 3), (0, 2, 0, 2, 0), (1, 3, 1, 1, 2), (0, 0, 2, 3, 0), (0, 1, 0, 4, 0), (1, 1, 2, 3, 3), (0, 1, 2, 1, 4), (2, 0, 2, 1, 4), (1, 1, 2, 2, 4), (0, 0, 1, 4, 2))],
+          bounds=lambda tier: {"modes": MODES, "placements": PLACES, "names": NAMES, "definer_depth": [1, 2, "2 with a same-named deriver at model level", "2 with the deriver's path ending like the definer's"], "derivers": ["static sub space", "ItemSpace of definer", "ItemSpace of the sub space"],
                                "follow_up": FOLLOW},
           outside=["descendant targets under static derivation (child spaces are not inherited; unspecified)", "ItemSpaces nested in ItemSpaces", "more than one follow-up operation"]),
 ]
@@ -280,4 +337,10 @@ QUERIES.append(
           natives=[dict(m1=a, m2=b, tgt=t, how=h) for (a, b, t, h) in ((0, 2, 0, 0), (2, 0, 1, 0), (0, 2, 0, 1), (1, 2, 1, 1), (2, 1, 0, 1), (0, 0, 1, 0))],
           bounds=lambda tier: {"chain": "Z <- A <- B", "modes": MODES, "targets": ["cells of the definer", "the definer"], "change": ["override in A then delete it", "re-assignment in Z with another mode"]},
           outside=["deeper chains"]))
+QUERIES.append(
+    Query("override_target", override_target, pre=["0 <= mode < 3", "1 <= depth <= 2", "0 <= what <= 1"],
+          partitions=lambda tier, seed: [dict(what=w_) for w_ in (0, 1)],
+          natives=[dict(mode=mo, depth=d_, what=w_) for mo in range(3) for (d_, w_) in ((1, 0), (2, 1), (2, 0))],
+          bounds=lambda tier: {"modes": MODES, "chain": "Base <- Sub (<- GSub)", "history": "override the target cells in Sub, [delete the override]"},
+          outside=[]))
 BUDGET = {"quick": 420, "thorough": 1200}
